@@ -9,7 +9,7 @@ HOOK_COMMITS = subprocess.check_output(
 
 # id -> (level, technique, design_ref, text, note)
 CHECKS = {
-    "C01": ("exploration", "property-based testing: proptest-generated (data recipe, options, framing, write plan) cases, round-trip oracle, both build profiles",
+    "C01": ("exploration", "property-based testing: proptest-generated (data recipe, options, framing, write plan) cases, round-trip oracle, both build profiles; thorough tier adds a coverage-guided libFuzzer + ASan campaign (fuzz_roundtrip)",
             "DESIGN.md 3/C01",
             "Generated search over data recipes x in-range option vectors x framings x write partitions x position bias with an inverse (round-trip) oracle and panic capture in a checked (debug assertions + overflow checks) and a release build; coverage classes (window move, renormalisation, LZMA2 chunk kinds, restart, preset dictionary) are measured and floored. Finds violations, never proves absence.",
             "Trusts the harness's LZMA2 chunk walker for classification only; dictionaries > 64 MiB and real > 2 GiB inputs are replaced by the position-bias hook."),
@@ -45,10 +45,10 @@ CHECKS = {
             "DESIGN.md 3/C04",
             "Generated XZ (three check types, 1-3 blocks, crate-written or liblzma fixtures) and LZIP (1-3 members) base files; inside a case the mutants are enumerated: every single-bit flip (exhaustive for bases <= 600 bytes), byte substitutions, region delete/duplicate/insert/swap, edits of every structural field found by the harness's walker with and without recomputing the enclosing CRC32, non-format garbage. The reader must fail or return exactly the original; success with other bytes is a violation unless liblzma accepts the mutant with the same bytes.",
             "liblzma arbitrates 'different valid file'; LZIPReaderMT on corrupt input belongs to C09."),
-    "C06": ("exploration", "structure-aware fuzzing with proptest generators: mutated valid streams (CRC fix-up) and hostile caller parameters, panic/abort/memory/time monitors",
+    "C06": ("exploration", "structure-aware fuzzing with proptest generators: mutated valid streams (CRC fix-up) and hostile caller parameters, panic/abort/memory/time monitors; thorough tier adds a coverage-guided libFuzzer + ASan campaign (fuzz_decode)",
             "DESIGN.md 3/C06",
             "Generated (decoder, caller parameters, mutated or random input) cases for LZMA (header and raw with any props byte / dictionary / declared size), LZMA2, XZ (multi on/off), LZIP, BCJ x8, Delta, BCJ2; every read call, including one after an error, must return; panics and shadow assertions are caught, aborts/stack overflows are detected through the shard journal and confirmed in isolation, peak heap is bounded by declared dictionary + 8 MiB + 4 x input, a case may take at most 20 s (hangs: watchdog + isolation re-run).",
-            "Single-threaded decoders only (MT readers: C09); the accounting allocator measures Rust allocations of the process."),
+            "The MT readers run here on real threads (their schedules are explored in C09); the accounting allocator measures Rust allocations of the process."),
     "C08": ("exploration", "schedule exploration with the shuttle deterministic scheduler (random, PCT, round robin) over proptest-generated scenarios; single-threaded path as reference model",
             "DESIGN.md 3/C08",
             "Generated scenarios (data, options, LZMA2/LZIP, unit sizes, worker counts 1-5, write plans, read sizes, stream source: MT writer with and without flush, ST writer with independent units, one unit of dependent chunks, preset dictionary, trailing bytes) each run under 40 (quick) / 300 (thorough) seeded schedules; MT-written streams must decode with the ST and the MT reader to the written bytes, the MT reader must return what the ST reader returns.",
@@ -77,7 +77,7 @@ CHECKS = {
             "DESIGN.md 3/C14",
             "A seeded case list (encoder runs with position bias / window moves / long matches, decoder runs over damaged and shortened streams, i32 normalisation arrays) is run through four builds of /verif/featx; compressed bytes (size+hash), decoded bytes (count+hash) and error class must be identical in all four, and normalize_scalar == normalize dispatch == max(p - offset, 0).",
             "x86_64 only: the aarch64 assembly / NEON paths are not compiled here. Cases are generated, not shrunk (the failing case is already a single small input)."),
-    "C15": ("exploration", "property-based testing / fuzzing of the C01 encoder and C06 hostile-decoder workloads with two out-of-bounds sensors: cfg-gated shadow assertions before every unsafe block and an electric-fence allocator (inaccessible page directly after / before every allocation >= 4 KiB)",
+    "C15": ("exploration", "property-based testing / fuzzing of the C01 encoder and C06 hostile-decoder workloads with two out-of-bounds sensors: cfg-gated shadow assertions before every unsafe block and an electric-fence allocator (inaccessible page directly after / before every allocation >= 4 KiB); thorough tier adds libFuzzer + ASan campaigns on both fuzz targets",
             "DESIGN.md 3/C15",
             "Generated encoder cases (all C01 families incl. inputs fitted to end at the physical end of the window buffer, window moves, SIMD renormalisation), hostile decoder inputs (all C06 decoders and mutations), LZMA2 streams with a shortened chunk (direct bits at and beyond the end of the chunk buffer) and normalisation on sub-slices of every alignment; no shadow assertion may fire and the process must not die on a guard page. Release and overflow-checked builds.",
             "x86_64 only (aarch64 assembly / NEON not compiled). Guard pages see strays that leave an allocation >= 4 KiB by less than a page; smaller allocations and strays that stay inside the allocation are covered by the shadow assertions only. A crashing case is reported unshrunk (the case file written before the evaluation is the replay)."),
@@ -129,6 +129,8 @@ def main():
              "kind_free_text": "Rust binary: proptest strategies + shrinking per case, deterministic seeds, 16 shard processes, liblzma as reference, own format walkers, accounting/fence allocator, fault-injecting I/O"},
             {"name": "lzv-mt", "path": "harness/", "serves_properties": ["C08", "C09", "C10", "C13"],
              "kind_free_text": "the same binary built with --cfg lzma_rust2_verif_shuttle: the crate's std::sync / std::thread are replaced by shuttle, schedules are drawn by seeded Random / PCT / RoundRobin / DFS schedulers"},
+            {"name": "libfuzzer", "path": "fuzz/", "serves_properties": ["C01", "C06", "C15"],
+             "kind_free_text": "cargo-fuzz project (libFuzzer + AddressSanitizer, nightly, --cfg lzma_rust2_verif): fuzz_decode (all decoders on arbitrary bytes, optional XZ CRC fix-up) and fuzz_roundtrip (arbitrary-decoded options/framing/data grammar, round-trip oracle); run by the thorough tier with -fork=16 for a fixed time, artefacts re-run alone and turned into replay files"},
             {"name": "featx", "path": "featx/", "serves_properties": ["C14"],
              "kind_free_text": "no_std-capable worker crate built four times (std/no_std x optimization on/off); executes the case list produced by `lzv c14gen` and prints one transcript line per case; the driver compares the four transcripts"},
         ],
